@@ -184,8 +184,10 @@ def run_bucket(tape, prop, tier):
                 step = tape.choice([-3600.0, -1.0, -0.001, 0.5, 86400.0])
             ops.append((gk, burst, mode, frac, step))
         scripts.append(ops)
+    # a monitoring task that reads the `tokens` property now and then (reading must not change anything)
+    monitor = tape.chance(0.3)
     res.sample = dict(tokens_per_period=str(tpp), period=period, initial=str(initial), callers=ncallers,
-                      clock_steps=steps_fault, scripts=[[list(map(str, o)) for o in s[:6]] for s in scripts[:3]])
+                      clock_steps=steps_fault, monitor_reads_tokens=monitor, scripts=[[list(map(str, o)) for o in s[:6]] for s in scripts[:3]])
     cap = F(tpp)
     rate = F(tpp) / period
     trace = []
@@ -281,7 +283,19 @@ def run_bucket(tape, prop, tier):
                             loop.call_later(gap_unit * (frac % 5) / 10.0, wt.cancel)
                             res.faults["waiter_cancelled"] += 1
         waiters = []
+
+        async def monitoring():
+            n_ = 0
+            while n_ < 3000:
+                await asyncio.sleep(gap_unit * 0.37)
+                tb.tokens
+                n_ += 1
+            res.probes["tokens_read_by_monitor"] += 1
+        mt = asyncio.ensure_future(monitoring()) if monitor else None
         await asyncio.gather(*[caller(i, s) for i, s in enumerate(scripts)])
+        if mt is not None:
+            mt.cancel()
+            res.probes["monitor_ran"] += 1
         if waiters:
             await asyncio.gather(*waiters, return_exceptions=True)
         await asyncio.sleep(float(period) * 50 + 10)     # let every delayed send happen
